@@ -300,6 +300,10 @@ func symIntrinsic(fr *frame, fn *ssa.Function, args []value) (value, bool) {
 		return code, true
 	case "verifLastExit":
 		return fr.i.lastExit, true
+	case "verifAllowOpaqueCut":
+		ex.allowOpaqueCut = true
+		ex.noteAssumption("cut: paths on which the TEXT of a symbolic number is inspected end there (outside the claim)")
+		return nil, true
 	case "verifNote":
 		ex.noteAssumption(argStr(args[0]))
 		return nil, true
